@@ -210,11 +210,20 @@ def run(ctx: Ctx):
         cases.append((f"exhmedium:1:{k}", c))
     for k, c in enumerate(rig.exhaustive_cases(cfgm, [], 2, rig.medium_alphabet())):
         cases.append((f"exhmedium:0:{k}", c))
+    # a node commanding itself through its gateway
+    cfgs = dict(base_cfg, topo="routed", su=0, sd=0)
+    for k, c in enumerate(rig.exhaustive_cases(cfgs, [dict(rig.self_alphabet()[0])], 3, rig.self_alphabet())):
+        cases.append((f"exhself:{k}", c))
     # the local command path: every sequence of three operations of the local alphabet (quick: a seeded sample of the largest families)
     fam_rng = ctx.rng.fork("families")
     local_all = list(rig.exhaustive_cases(base_cfg, rig.LOCAL_PREFIX, 3, rig.local_alphabet()))
     for k, c in _sample(fam_rng, local_all, len(local_all)):
         cases.append((f"exhlocal:{k}", c))
+    if ctx.thorough:   # depth 4: a seeded sample of 6 000 out of 14 641 sequences for each of the two newest families
+        for k, c in _sample(fam_rng, list(rig.exhaustive_cases(base_cfg, rig.LOCAL_PREFIX, 4, rig.local_alphabet())), 6000):
+            cases.append((f"exhlocal4:{k}", c))
+        for k, c in _sample(fam_rng, list(rig.exhaustive_cases(cfgm, [login], 4, rig.medium_alphabet())), 6000):
+            cases.append((f"exhmedium4:{k}", c))
     rng = ctx.rng.fork("sess")
     for k in range(ctx.scale(500, 6000)):
         cases.append((f"gen:{k}", rig.gen_case(rng, max_ops=ctx.scale(30, 60))))
